@@ -7,7 +7,8 @@ inp['keep_log']=True
 d=tempfile.mkdtemp(prefix='verif-dbg-')
 inp['out']=d+'/out.json'; inp['cert_dir']='/verif/certs'
 json.dump(inp,open(d+'/in.json','w'))
-bins=sorted(glob.glob('/verif/.build-cache/*/harness.race.test' if os.environ.get('DBG_RACE') else '/verif/.build-cache/*/harness.test'),key=os.path.getmtime)
+bdir=subprocess.run(['/verif/bin/simrun','-build-only']+(['-repo',os.environ['DBG_REPO']] if os.environ.get('DBG_REPO') else []),capture_output=True,text=True,cwd='/verif').stdout.strip().splitlines()[-1]
+bins=[bdir+('/harness.race.test' if os.environ.get('DBG_RACE') else '/harness.test')]
 env={'VERIF_RUN':d+'/in.json','GOMAXPROCS':'1','GOGC':'off','GODEBUG':'asyncpreemptoff=1,randautoseed=0','PATH':'/usr/bin:/bin','HOME':'/tmp','GORACE':'halt_on_error=0 exitcode=0'}
 if os.environ.get('VERIF_TRACE_G'): env['VERIF_TRACE_G']='1'
 if os.environ.get('VERIF_DUMP_ON_VIOLATION'): env['VERIF_DUMP_ON_VIOLATION']='1'
